@@ -73,7 +73,7 @@ pub fn instantiate(
         );
     }
 
-    let config = Config {
+    let mut config = Config {
         start_time: msg.start_time,
         end_time: msg.end_time,
         num_members: msg.members.len() as u32,
@@ -128,8 +128,13 @@ pub fn instantiate(
                 return Err(ContractError::ExceededWhaleCap {});
             }
         }
+        // a repeated address overwrites its entry: it is one member, not two
+        if WHITELIST.has(deps.storage, addr.clone()) {
+            config.num_members -= 1;
+        }
         WHITELIST.save(deps.storage, addr, &member.mint_count)?;
     }
+    CONFIG.save(deps.storage, &config)?;
 
     Ok(res
         .add_attribute("action", "instantiate")
